@@ -216,6 +216,44 @@ let handle_hist (r : reader) : unit =
     | _ -> raise (Parse_error "hist-call")
   done
 
+(* ---------- C14: moc-set histories ---------- *)
+let status_of = function "valid" | "v" -> Valid | "deprecated" | "d" -> Deprecated | _ -> Removed
+let status_str = function Valid -> "valid" | Deprecated -> "deprecated" | Removed -> "removed"
+
+let handle_mset (r : reader) : unit =
+  (* MSET n128 ncmds cmds... ; M = (depth, ranges) *)
+  let n128 = next_n r in
+  let ncmds = next_int r in
+  let st = ref { cap = n_of_n128 n128; ents0 = []; locked = false } in
+  let dump () =
+    out_int (List.length !st.ents0);
+    List.iter (fun e -> out_n e.e_id; out_s (" " ^ status_str e.e_st); let (d, l) = e.e_moc in out_n d; out_ranges l) !st.ents0;
+    out_s " ;" in
+  out_s "OK";
+  for _ = 1 to ncmds do
+    (match next r with
+     | "APP" ->
+         let id = next_n r in
+         let s0 = status_of (next r) in
+         let d = next_n r in
+         let l = next_ranges r in
+         let (s', o) = exec0 !st (Append (id, s0, (d, l))) in
+         st := s'; out_s (match o with Done -> " D" | Failed -> " F")
+     | "CHG" ->
+         let s0 = status_of (next r) in
+         let ids = next_list r next_n in
+         let (s', o) = exec0 !st (ChgStatus (s0, ids)) in
+         st := s'; out_s (match o with Done -> " D" | Failed -> " F")
+     | "PURGE" ->
+         let k = (match next r with "-" -> None | x -> Some (n_of_string x)) in
+         let (s', o) = exec0 !st (Purge k) in
+         st := s'; out_s (match o with Done -> " D" | Failed -> " F")
+     | "LOCK" -> st := { !st with locked = true }; out_s " D"
+     | "UNLOCK" -> st := { !st with locked = false }; out_s " D"
+     | _ -> raise (Parse_error "mset-cmd"));
+    dump ()
+  done
+
 (* ---------- dispatch ---------- *)
 let handle (r : reader) : unit =
   match next r with
@@ -334,6 +372,7 @@ let handle (r : reader) : unit =
       out_s "OK ";
       List.iter (fun b -> Buffer.add_string buf (Printf.sprintf "%02x" (int_of_n b))) bytes
   | "HIST" -> handle_hist r
+  | "MSET" -> handle_mset r
   | "TEXTV" ->
       (* TEXTV q w nmarks marks n (d a b_incl|INVx)* : reference validation of a text document *)
       let q = next_qty r in
